@@ -392,6 +392,40 @@ def run_huge_values(ctx):
     ctx.cell("census", "token on a number too long to print -> unevaluable")
 
 
+def run_string_subclasses(ctx):
+    """String values held as instances of `str` subclasses (a str-mixin enum member, a tagged string, a string with an
+    `__html__`): a token applied to a string never yields a value, whatever the string's class."""
+    import enum
+
+    import jsonpath
+    from jsonpath import JSONPointer
+
+    class Colour(str, enum.Enum):
+        RED = "red"
+
+    class Tag(str):
+        pass
+    for val in (Colour.RED, Tag("red"), gen.MarkupStr("red"), Tag(""), Tag("0")):
+        doc = {"colour": val, "list": [val, {"k": val}]}
+        for base in (["colour"], ["list", "0"], ["list", "1", "k"]):
+            for tok in ("0", "-1", "1", "-", "length", "#0", "", "red"):
+                toks = base + [tok]
+                text = rp.encode(toks)
+                sentinel = object()
+                ctx.evaluation()
+                ctx.case(h("str-subclass", type(val).__name__, str(val), toks), True)
+                ctx.count("tokens_applied_to_strings_of_other_classes")
+                for rname, fn, bad in (("resolve", lambda: JSONPointer(text).resolve(doc), lambda o: o.ok or not isinstance(o.exc, jsonpath.JSONPointerResolutionError)),
+                                       ("resolve(default)", lambda: JSONPointer(text).resolve(doc, default=sentinel), lambda o: not o.ok or o.value is not sentinel),
+                                       ("exists", lambda: JSONPointer(text).exists(doc), lambda o: not o.ok or o.value is not False),
+                                       ("from_parts", lambda: JSONPointer.from_parts(list(toks)).resolve(doc, default=sentinel), lambda o: not o.ok or o.value is not sentinel),
+                                       ("pointer.resolve", lambda: jsonpath.pointer.resolve(text, doc, default=sentinel), lambda o: not o.ok or o.value is not sentinel)):
+                    o = impl.call(fn)
+                    if bad(o):
+                        ctx.violation("token-applied-to-a-string-yields-a-value:%s" % rname, {"string_subclasses": True}, {"string_class": type(val).__name__, "string": str(val), "tokens": toks, "route": rname, "outcome": o.desc() if not o.ok else repr(o.value)[:100]})
+                        return
+
+
 def run_marker_siblings(ctx):
     """Objects holding a member N next to members named '~N' and '#N' (the spellings of the non-standard key markers):
     a pointer spelled from a node's names resolves to that very node whatever the names contain, so '/~0N' is the member
@@ -439,6 +473,7 @@ def run(spec, ctx):
         run_surrogates(ctx)
         run_marker_siblings(ctx)
         run_huge_values(ctx)
+        run_string_subclasses(ctx)
         return
     if spec.get("kind") == "flags":
         # pointer texts with %XX / \uXXXX sequences read under every decoding option, in several orders, in one process
@@ -508,6 +543,9 @@ def finalize(m, tier):
 
 
 def replay(case, ctx):
+    if case.get("string_subclasses"):
+        run_string_subclasses(ctx)
+        return
     if case.get("huge_values"):
         run_huge_values(ctx)
         return
